@@ -223,12 +223,14 @@ def unescape (L : List Char) : Str → Option Str
     else if c ∈ L ∨ c = '<' ∨ c = '>' then none
     else (unescape L r).map (c :: ·)
 
+/-- the characters `xml.sax.saxutils.escape` consumes or produces: `& < >` and the letters of `&amp; &lt; &gt;` -/
+def reservedChars : List Char := ['&', '<', '>', ';', 'a', 'm', 'p', 'l', 'g', 't']
+
 /-- what the escape list must look like for the sequential replacement passes of the backend to be the
 character-wise map `escChar`: no character twice, the backslash (if present) first, and none of the
 characters `escape` produces or consumes -/
 def tableOK (L : List Char) : Bool :=
-  L.Nodup && L.tail.all (· != '\\') &&
-    L.all fun c => !("&<>;amplgt".toList.contains c)
+  L.Nodup && L.tail.all (· != '\\') && L.all fun c => !(reservedChars.contains c)
 
 end Md
 
